@@ -317,10 +317,42 @@ pub fn mutate_tree(rep: &mut Rep, c: &mut Ctx, msg: &[u8], signal: &[u8], member
             rep.violation("verify_rln_proof:rejects-after-tree-restored", json!({"case": label, "change": "delete-member"}));
         }
     }
+    // the whole tree replaced (the three ways the API offers, in rotation): the old message must not be accepted
+    // against the new, different tree. The member is registered again afterwards for the steps that follow.
+    static RESET_NO: std::sync::atomic::AtomicUsize = std::sync::atomic::AtomicUsize::new(0);
+    let how = ["set_tree", "init_tree_with_leaves(none)", "init_tree_with_leaves(other)"][RESET_NO.fetch_add(1, std::sync::atomic::Ordering::Relaxed) % 3];
+    let member_leaf = c.model.get(member_index);
+    match how {
+        "set_tree" => {
+            let _ = catch(|| c.rln.set_tree(20).map_err(|e| e.to_string()));
+            c.model.reset();
+        }
+        "init_tree_with_leaves(none)" => {
+            // resets the tree, then refuses the empty write
+            let _ = catch(|| c.rln.init_tree_with_leaves(Cursor::new(enc_vec_fr(&[]))).map_err(|e| e.to_string()));
+            c.model.reset();
+        }
+        _ => {
+            let v = [rand_fr(rng), rand_fr(rng)];
+            let _ = catch(|| c.rln.init_tree_with_leaves(Cursor::new(enc_vec_fr(&v))).map_err(|e| e.to_string()));
+            c.model.reset();
+            c.model.write_range(0, &v);
+        }
+    }
+    rep.ev();
+    rep.stratum(format!("tree|replaced-by-{how}"));
+    if c.root() != c.model.root() {
+        rep.inconclusive(format!("tree after {how} differs from the model (C06/C16 territory)"));
+    } else if c.model.root() != dec_message(msg).unwrap().1.root && v_rln(c, &req) == V::True {
+        rep.violation("verify_rln_proof:accepts-after-tree-change", json!({"case": label, "change": how}));
+    }
+    if !c.set(member_index, member_leaf) {
+        rep.inconclusive("could not register the member again after the reset".to_string());
+    }
 }
 
 pub fn run(rep: &mut Rep) {
-    rep.rule = "for each accepted message (different strata of C01's generator): (a) each of root/external nullifier/x/y/nullifier replaced by value+-1, 0, p-1, random and by every other field of the message; (b) signal byte/bit flips, truncation, extension, empty, declared length +-1 with a consistent buffer; (c) single-bit flips of the 1024 proof bits (all of them in thorough and for the first message in quick); (d) verifier tree: unrelated leaf set, far leaf set, member leaf overwritten/deleted, then restored (positive control); (e) root sets of size 1..8 without the root, with it at every position, near misses. Every mutated value is compared with the original as a field element first (aliases are C13's subject). distinct_nontrivial = distinct (mutation kind, field/position class) keys".into();
+    rep.rule = "for each accepted message (different strata of C01's generator): (a) each of root/external nullifier/x/y/nullifier replaced by value+-1, 0, p-1, random and by every other field of the message; (b) signal byte/bit flips, truncation, extension, empty, declared length +-1 with a consistent buffer; (c) single-bit flips of the 1024 proof bits (all of them in thorough and for the first message in quick); (d) verifier tree: unrelated leaf set, far leaf set, member leaf overwritten/deleted, then restored (positive control), then the whole tree replaced by set_tree / init_tree_with_leaves; (e) root sets of size 1..8 without the root, with it at every position, near misses. Every mutated value is compared with the original as a field element first (aliases are C13's subject). distinct_nontrivial = distinct (mutation kind, field/position class) keys".into();
     rep.assumptions = vec!["Groth16 soundness (a proof for different public values is not forgeable by bit flips)".into(), "panics count as 'not true' here; crash-freedom is C13's".into()];
     let thorough = rep.thorough();
     let mut rng = rng_for(rep.seed, "c02");
